@@ -1,4 +1,6 @@
 """C10 - the OMEN generator enumerates each level exactly."""
+import contextlib
+import io
 import os
 
 import common
@@ -67,9 +69,15 @@ def run(ctx):
     else:
         retr_err = None
     ops, exp, meta, viol, samples = [], [], [], [], []
+    try:
+        tv, tn, tl = trained_reference_case()
+        viol += tv
+    except Exception as e:
+        viol.append({'property': 'C10', 'kind': 'implementation-raised', 'error': repr(e)[:300], 'witness': {'trained_reference': True}})
+        tn = tl = 0
     if retr_err:
         viol.append({'property': 'C10', 'kind': 'implementation-raised', 'error': retr_err, 'witness': {'retrained': True}})
-    dist = {'ngram': {}, 'letters': {}, 'warm_cache': {}, 'raise': 0, 'one_byte_encodings': len(enc_of)}
+    dist = {'ngram': {}, 'letters': {}, 'warm_cache': {}, 'raise': 0, 'one_byte_encodings': len(enc_of), 'trained_reference_strings': tn, 'trained_reference_levels': tl}
     cases = nontrivial = guesses = 0
     seen = set()
     root = common.scratch_dir('rules')
@@ -152,6 +160,44 @@ def run(ctx):
             'extra': {'guesses_compared': guesses, 'protocol_ops': len(ops)}}
 
 
+def trained_reference_case():
+    """the model is the trainer's own (real AlphabetLookup after smoothing, saved by the real writer, loaded by the real loader): for
+    every string over the alphabet the level the trainer assigns is the level at which the generator emits it - judged against the
+    trainer's tables in memory, not against a re-reading of the files the writer produced"""
+    import itertools
+    import corr_omentrain as ct
+    common.use_impl()
+    from lib_trainer.omen.evaluate_password import find_omen_level, calc_omen_keyspace
+    from lib_guesser.omen.optimizer import Optimizer
+    from collections import Counter
+    pws = ['abcab', 'abcba', 'abab', 'abca', 'abc', 'abcabc', 'abbc', 'abcab', 'abab', 'acab', 'abcc', 'abcabc']      # all start with `a`
+    ngram, maxlen = 3, 6
+    al, alphabet = ct.build(pws, ngram, 100, maxlen)
+    with contextlib.redirect_stdout(io.StringIO()):
+        ks = calc_omen_keyspace(al)
+    rd = os.path.join(common.scratch_dir('rules'), 'c10trainedref')
+    os.makedirs(rd, exist_ok=True)
+    ct.save_rules(al, alphabet, ks, Counter(find_omen_level(al, p) for p in pws), len(pws), rd, ngram)
+    g = corr_omen.load_real(os.path.join(rd, 'Omen'))
+    want = {}
+    for ln in range(ngram, maxlen + 1):
+        for t in itertools.product(alphabet, repeat=ln):
+            sx = ''.join(t)
+            lv = find_omen_level(al, sx)
+            if lv >= 0:
+                want.setdefault(lv, set()).add(sx)
+    out = []
+    shared = Optimizer(4)
+    wit = {'trained_reference': True, 'passwords': pws, 'ngram': ngram, 'max_length': maxlen}
+    for L in range(0, 19):
+        gs = corr_omen.real_enum(g, L, shared, limit=5000) or []
+        if sorted(gs) != sorted(want.get(L, set())):
+            out.append({'property': 'C10', 'kind': 'level-differs-from-trainer-model', 'level': L, 'emitted': len(gs), 'trainer_says': len(want.get(L, set())),
+                        'missing': sorted(want.get(L, set()) - set(gs))[:4], 'extra_or_repeated': sorted(set(gs) - want.get(L, set()))[:4], 'witness': wit})
+            break
+    return out, sum(len(v) for v in want.values()), len(want)
+
+
 def retrained_model(rng, pws=None):
     """train a list with n-gram size 3, then again into the same directory with n-gram size 4; the model = what the files say now"""
     pws = pws or [''.join(rng.choice('abb') for _ in range(rng.randint(3, 6))) for _ in range(40)]
@@ -177,6 +223,8 @@ def replay(ctx, payload):
     w = payload.get('violation', {}).get('witness')
     if not w:
         return []
+    if w.get('trained_reference'):
+        return trained_reference_case()[0]
     if w.get('retrained_passwords'):
         common.use_impl()
         rt = retrained_model(ctx.rng, pws=w['retrained_passwords'])
